@@ -222,7 +222,7 @@ theorem getRow_err_inv (fuel : Nat) (s : RowIt) (e : ExprErr) (h : getRow tc fue
         | panic _ => simp
         | ok ins =>
           simp only
-          cases genExpected tc top.entries <;> simp
+          cases genExpected tc top.entries top.xcols <;> simp
     | none it c => simp [hn] at h
     | err e' => simp only [hn, GetRowRes.err.injEq] at h; subst h; exact ⟨rfl, rfl⟩
     | panic m => simp [hn] at h
@@ -242,7 +242,7 @@ theorem getRow_err_inv (fuel : Nat) (s : RowIt) (e : ExprErr) (h : getRow tc fue
       | panic _ => simp
       | ok ins =>
         simp only
-        cases genExpected tc top.entries <;> simp
+        cases genExpected tc top.entries top.xcols <;> simp
 
 /-- the iterator invariant behind an evaluation error -/
 theorem afterEvalErr_inv (w : Nat) (fuel : Nat) (s : RowIt) (e : ExprErr) (h : RInv tc w s)
